@@ -2795,13 +2795,18 @@ void SoPlexBase<R>::clearLPReal()
 {
    assert(_realLP != nullptr);
 
+   // clear() resets the objective sense of the LP; keep the one the user set
    _realLP->clear();
+   _realLP->changeSense(intParam(SoPlexBase<R>::OBJSENSE) == SoPlexBase<R>::OBJSENSE_MAXIMIZE ?
+                        SPxLPBase<R>::MAXIMIZE : SPxLPBase<R>::MINIMIZE);
    _hasBasis = false;
    _rationalLUSolver.clear();
 
    if(intParam(SoPlexBase<R>::SYNCMODE) == SYNCMODE_AUTO)
    {
       _rationalLP->clear();
+      _rationalLP->changeSense(intParam(SoPlexBase<R>::OBJSENSE) == SoPlexBase<R>::OBJSENSE_MAXIMIZE ?
+                               SPxLPRational::MAXIMIZE : SPxLPRational::MINIMIZE);
       _rowTypes.clear();
       _colTypes.clear();
    }
@@ -3724,7 +3729,10 @@ void SoPlexBase<R>::clearLPRational()
 {
    assert(_rationalLP != nullptr);
 
+   // clear() resets the objective sense of the LP; keep the one the user set
    _rationalLP->clear();
+   _rationalLP->changeSense(intParam(SoPlexBase<R>::OBJSENSE) == SoPlexBase<R>::OBJSENSE_MAXIMIZE ?
+                            SPxLPRational::MAXIMIZE : SPxLPRational::MINIMIZE);
    _rationalLUSolver.clear();
    _rowTypes.clear();
    _colTypes.clear();
@@ -3732,6 +3740,8 @@ void SoPlexBase<R>::clearLPRational()
    if(intParam(SoPlexBase<R>::SYNCMODE) == SYNCMODE_AUTO)
    {
       _realLP->clear();
+      _realLP->changeSense(intParam(SoPlexBase<R>::OBJSENSE) == SoPlexBase<R>::OBJSENSE_MAXIMIZE ?
+                           SPxLPBase<R>::MAXIMIZE : SPxLPBase<R>::MINIMIZE);
       _hasBasis = false;
    }
 
